@@ -327,6 +327,35 @@ fn fn_endings(ctx: &mut Ctx) {
     }
 }
 
+/// constructs at the boundary widths of the one-byte operands (captured variables, arguments, locals) and wide
+/// literals: a count that the encoder wraps or truncates leaves the surplus values on the stack
+fn wide_constructs(ctx: &mut Ctx) {
+    let mut progs: Vec<(String, Vec<String>)> = Vec::new();
+    for n in [1usize, 2, 100, 128, 200, 254, 255, 256, 257, 300] {
+        let lets: String = (0..n).map(|i| format!("let v{} = {}; ", i, i % 5)).collect();
+        let sum: String = (0..n).map(|i| format!("v{}", i)).collect::<Vec<_>>().join(" + ");
+        progs.push((format!("captured-{}", n), vec![format!("fn outer() {{ {} fn() {{ {} }} }}", lets, sum), "let c = outer();".into(), "c();".into(), "[c(), outer()()];".into(), "let k = 0; while k < 3 { outer(); k = k + 1; }".into()]));
+        let params: Vec<String> = (0..n).map(|i| format!("p{}", i)).collect();
+        let args: Vec<String> = (0..n).map(|i| (i % 7).to_string()).collect();
+        progs.push((format!("arguments-{}", n), vec![format!("fn f({}) {{ p0 }}", params.join(", ")), format!("f({});", args.join(", ")), format!("[f({})];", args.join(", "))]));
+        progs.push((format!("locals-{}", n), vec![format!("fn g() {{ {} v0 }}", lets), "g();".into(), "[g(), g()];".into()]));
+        progs.push((format!("array-{}", n), vec![format!("[{}];", args.join(", ")), format!("let a = [{}];", args.join(", ")), format!("len([{}]);", args.join(", "))]));
+        let pairs: Vec<String> = (0..n).map(|i| format!("{}: {}", i, i % 3)).collect();
+        progs.push((format!("map-{}", n), vec![format!("map {{{}}};", pairs.join(", ")), format!("let m = map {{{}}};", pairs.join(", "))]));
+    }
+    for (i, (name, stmts)) in progs.iter().enumerate() {
+        if !ctx.mine(i as u64) {
+            continue;
+        }
+        ctx.class("wide");
+        let prog: Vec<S> = stmts.iter().map(|t| S::Raw(t.clone())).collect();
+        let _ = name;
+        for v in check_statements(ctx, "wide", &prog) {
+            ctx.report(v);
+        }
+    }
+}
+
 /// assignments whose target is not a variable, an element or a property: rejected, or at least balanced
 fn odd_assignment_targets(ctx: &mut Ctx) {
     let targets = [
@@ -461,6 +490,7 @@ fn gen_filter_src(bytes: &[u8]) -> Option<(String, usize)> {
 pub fn run(ctx: &mut Ctx) {
     fn_endings(ctx);
     odd_assignment_targets(ctx);
+    wide_constructs(ctx);
     let n = ctx.nshards as u32;
     // mode A: no jumps in operand positions (every imbalance is novel)
     drive(ctx, "statements", ctx.tier.pick(40_000, 1_000_000) / n, 16, 400, |ctx, bytes| {
